@@ -4,6 +4,8 @@
 package decoder
 
 import (
+	"sort"
+
 	"github.com/hashicorp/hcl-lang/decoder/internal/ast"
 	"github.com/hashicorp/hcl-lang/decoder/internal/schemahelper"
 	"github.com/hashicorp/hcl-lang/schema"
@@ -58,7 +60,16 @@ func (d *PathDecoder) decodeWriteOnlyAttributesForBody(body hcl.Body, bodySchema
 
 			blockContent := ast.DecodeBody(block.Body, blockSchema.Body)
 
-			for _, attr := range blockContent.Attributes {
+			// attributes are kept in a map: report them in the order
+			// of their names rather than in the order of map iteration
+			attrNames := make([]string, 0, len(blockContent.Attributes))
+			for name := range blockContent.Attributes {
+				attrNames = append(attrNames, name)
+			}
+			sort.Strings(attrNames)
+
+			for _, name := range attrNames {
+				attr := blockContent.Attributes[name]
 				attrSchema, ok := mergedSchema.Attributes[attr.Name]
 				if ok && attrSchema.IsWriteOnly {
 
